@@ -551,6 +551,42 @@ fn step<const N: usize>(
                 panics.join(",")
             ))
         }
+        "CUTSAMPLE" => {
+            // sampled strict prefixes of a large image: every step-th cut, the neighbourhood of every 64 KiB
+            // boundary, the last 64 cuts
+            let bytes = ctx.images[t[1]].clone();
+            let step = usize_in(t[2]).max(1);
+            let n = bytes.len();
+            let mut cuts: Vec<usize> = (0..n).step_by(step).collect();
+            let mut b = 65536;
+            while b < n + 16 {
+                for k in b.saturating_sub(8)..(b + 8).min(n) {
+                    cuts.push(k);
+                }
+                b += 65536;
+            }
+            for k in n.saturating_sub(64)..n {
+                cuts.push(k);
+            }
+            cuts.sort_unstable();
+            cuts.dedup();
+            let mut oks = vec![];
+            let mut panics = vec![];
+            for k in &cuts {
+                let r = catch_unwind(AssertUnwindSafe(|| load_bytes::<N>(ctx, &bytes[..*k]).is_ok()));
+                match r {
+                    Ok(true) => oks.push(k.to_string()),
+                    Ok(false) => {}
+                    Err(_) => panics.push(k.to_string()),
+                }
+            }
+            plain(format!(
+                "cuts n={} ok=[{}] panic=[{}]",
+                n,
+                oks.join(","),
+                panics.join(",")
+            ))
+        }
         "SCRIPT" => {
             let mut s = Script::from_str(&text_arg(t[2]));
             let r = s.deploy_to(gs.get_mut(t[1]).unwrap());
@@ -605,7 +641,7 @@ fn run_history<const N: usize>(ctx: &mut Ctx, lines: &[String], out: &mut impl W
                 let stateless_op = t[0].starts_with("HEX")
                     || t[0].starts_with("LABEL")
                     || t[0].starts_with("LOAD")
-                    || matches!(t[0], "KID" | "KIDS" | "KEYS" | "XML" | "DOT" | "DEBUG" | "INSPECT" | "VPRINT" | "SLICE" | "SAVE");
+                    || matches!(t[0], "KID" | "KIDS" | "KEYS" | "XML" | "DOT" | "DEBUG" | "INSPECT" | "VPRINT" | "SLICE" | "SAVE" | "CUTSAMPLE");
                 if !stateless_op {
                     // the graph may be half-updated: the history ends here
                     writeln!(out, "END").unwrap();
